@@ -58,15 +58,33 @@ def gen_reaction(rng, species, kinds, allow_delay=False, max_order=4, named=True
         rx["delay"] = {"type": dk, "reactants": dre, "products": dpr, "params": dp}
     return rx, pvals
 
+def bound_reaction(rng, rx, pvals):
+    """bounded dynamics: a reaction with reactants never has more products than reactants (immediate + delayed);
+    a reaction without reactants has a bounded rate (constant or non-proportional Hill)"""
+    d = rx.get("delay")
+    nre = len(rx["reactants"]) + (len(d["reactants"]) if d else 0)
+    if nre == 0:
+        if rx["type"] not in ("massaction", "hillpositive", "hillnegative"):
+            rx["type"] = "massaction"; rx["params"] = {"k": rng.choice([0.1, 0.25, 0.5, 1.0])}
+        rx["products"] = rx["products"][:2]
+        if d: d["products"] = d["products"][:1]
+    else:
+        keep = nre
+        rx["products"] = rx["products"][:keep]; keep -= len(rx["products"])
+        if d: d["products"] = d["products"][:max(keep, 0)]
+    return rx
+
 def gen_network(rng, kinds=("massaction",) + tuple(HILL), nrx=(1, 4), nsp=(1, 5), allow_delay=False, max_order=4,
-                named=True, integer_state=False, general_pool=None):
+                named=True, integer_state=False, general_pool=None, bounded=False):
     n = rng.randint(*nsp)
     species = rng.sample(SPECIES_POOL, n)
     order = list(species); rng.shuffle(order)
     rxs = []; pvals = {}
     for _ in range(rng.randint(*nrx)):
         rx, pv = gen_reaction(rng, species, list(kinds), allow_delay, max_order, named, general_pool)
-        rxs.append(rx); pvals.update(pv)
+        pvals.update(pv)
+        if bounded: rx = bound_reaction(rng, rx, pvals)
+        rxs.append(rx)
     x0 = {s: (float(rng.randint(0, 12)) if integer_state or rng.random() < 0.5 else dyadic(rng, 0, 10, 8)) for s in species}
     return {"species": order, "reactions": rxs, "parameters": pvals, "x0": x0}
 
@@ -145,3 +163,71 @@ def simif_tokens(M):
     toks += [str(int(v)) for v in S.flatten()] + [str(int(v)) for v in Sd.flatten()]
     for i in range(nrx): toks += prop_tokens(M, i)
     return toks
+
+# ------------------------------------------------------------------ rules, delays, whole simulations
+def _state_of(obj):
+    red = obj.__reduce__()
+    st = red[1][2] if len(red[1]) > 2 and red[1][2] is not None else (red[2] if len(red) > 2 else None)
+    return st
+
+def rule_tokens(M):
+    """Cython's auto-pickle state lists the members in sorted name order:
+    additive: (dest_index, frequency_flag, species_source_indices); general/ode: (dest_index, frequency_flag, param_flag, rhs)"""
+    rules = None
+    for it in M.__getstate__():
+        if isinstance(it, list) and it and all(type(r).__name__.endswith("Rule") for r in it): rules = it
+    rules = rules or []
+    toks = [str(len(rules))]
+    for r in rules:
+        st = _state_of(r); name = type(r).__name__
+        if name == "AdditiveAssignmentRule":
+            toks += [fhex(st[1]), str(st[0]), "add", str(len(st[2]))] + [str(i) for i in st[2]]
+        elif name == "GeneralAssignmentRule":
+            toks += [fhex(st[1]), str(st[0]), "asg", str(int(st[2]))] + term_tokens(st[3])
+        elif name == "GeneralODERule":
+            toks += [fhex(st[1]), str(st[0]), "ode", str(int(st[2]))] + term_tokens(st[3])
+        else: raise ValueError("rule class " + name)
+    return toks
+
+def delay_tokens(M):
+    toks = []
+    for d in M.get_delays():
+        st = _state_of(d); name = type(d).__name__
+        if name == "NoDelay": toks += ["none"]
+        elif name == "FixedDelay": toks += ["fixed", str(st[0])]
+        elif name == "GaussianDelay": toks += ["gauss", str(st[1]), str(st[2])]
+        elif name == "GammaDelay": toks += ["gamma", str(st[1]), str(st[2])]
+        else: raise ValueError("delay class " + name)
+    return toks
+
+def sim_tokens(M, safe, dt, t0, x0):
+    """<safe> <dt> <t0> <x0 list> simif rules delays"""
+    return [("1" if safe else "0"), fhex(dt), fhex(t0)] + flist(x0) + simif_tokens(M) + rule_tokens(M) + delay_tokens(M)
+
+def gen_rules(rng, spec, kinds=("additive", "assignment", "ode"), freqs=("repeated", "start", "dt", "grid"), grid=None, maxn=3):
+    """rules chained in dependency order on fresh destination species / parameters"""
+    rules = []; species = list(spec["x0"].keys()); n = rng.randint(1, maxn)
+    avail = list(species)
+    for i in range(n):
+        kind = rng.choice(kinds); freq = rng.choice(freqs)
+        if freq == "grid": freq = rng.choice(grid) if grid else "repeated"
+        if kind == "additive":
+            dest = "R%d" % i; srcs = [rng.choice(avail) for _ in range(rng.randint(1, 3))]
+            spec["x0"][dest] = 0.0
+            rules.append(["additive", {"equation": "%s = %s" % (dest, " + ".join(srcs))}, freq]); avail.append(dest)
+        elif kind == "assignment":
+            if rng.random() < 0.5:
+                dest = "R%d" % i; spec["x0"][dest] = 0.0
+                rhs = rng.choice(["2*%s + 1", "%s*%s", "%s/(1+%s)", "%s + t"])
+                rhs = rhs % tuple(rng.choice(avail) for _ in range(rhs.count("%s")))
+                rules.append(["assignment", {"equation": "%s = %s" % (dest, rhs)}, freq]); avail.append(dest)
+            else:
+                dest = "rp%d" % i; spec["parameters"][dest] = 1.0
+                rhs = rng.choice(["0.5 + 0.25*%s", "1 + %s/8"]) % rng.choice(avail)
+                rules.append(["assignment", {"equation": "%s = %s" % (dest, rhs)}, freq])
+        else:
+            dest = "R%d" % i; spec["x0"][dest] = float(rng.randint(0, 3))
+            rhs = rng.choice(["1", "0.5*%s", "2 - %s/4"]); rhs = rhs % tuple(rng.choice(avail) for _ in range(rhs.count("%s")))
+            rules.append(["ode", {"equation": rhs, "target": dest}]); avail.append(dest)
+    spec["rules"] = rules
+    return spec
